@@ -25,13 +25,13 @@ CHECK = {
         quick=dict(runs=4000, wall=100), thorough=dict(runs=80000, wall=1800),
         rule="one evaluation = one seeded run of the three-node network inside a synctest bubble: 1-12 overlapping payments Alice->Bob->Carol, Carol->Bob->Alice and "
              "direct (valid, hold settled/cancelled later, unknown hash, underpaying, fee 1 msat short, generous fee, expired invoice, final CLTV too soon; amounts around "
-             "dust, min-HTLC and bandwidth limits), events = deliver the next message of a chosen (connection, direction) queue, tick, advance fake time, block, fee change; "
+             "dust, min-HTLC and bandwidth limits), events = deliver the next message of a chosen (connection, direction) queue, or (half of the runs) hand a whole queue to the link in one go so that later messages sit unread in its mailbox while it works on the first, tick, advance fake time, block, fee change; "
              "faults (arms calm / cuts / restart / crash) = cut a connection with per-direction delivered prefixes and re-create both links from disk, cut a connection INSIDE one of Bob's database writes (link quit signalled right after the k-th write commits, before the writing call returns), restart Bob "
              "(new Switch and links on the same database), crash Bob before/after his k-th database write. After every event to quiescence the online causality rules are "
              "checked at the transport; at wind-down (faults off, links up, hold invoices resolved) the conservation equalities are checked. non-trivial = a payment "
              "completed (and, in fault arms, completed after a fault fired); distinct = distinct event-trace hash",
         states_measure="distinct (per-connection queue lengths, payments in flight, Bob's pending/open circuits, faults so far) tuples",
-        expected_probes=["probe_forward_success", "probe_forward_failed_back", "probe_bob_settles_upstream", "probe_bob_fails_upstream", "probe_hold_settled",
+        expected_probes=["probe_delivered_behind_unprocessed_message", "probe_forward_success", "probe_forward_failed_back", "probe_bob_settles_upstream", "probe_bob_fails_upstream", "probe_hold_settled",
                          "probe_hold_cancelled", "probe_cut_with_payments_inflight", "probe_bob_reboot_with_circuits", "probe_payment_completed_after_fault",
                          "fault_cut", "fault_cut_inside_write", "probe_reboot_with_unacked_settlefail_only_pkg", "fault_cut_lost_messages", "fault_restart_bob", "fault_crash_before_fired", "fault_crash_after_fired", "fault_fee_change"],
         real_vs_stub=SWITCHSIM_STUB, assumptions=SWITCHSIM_ASSUME,
